@@ -61,6 +61,7 @@ def gen_case(rng, spec):
         "R": R,
         "maxlen": maxlen,
         "xseed": rng.randrange(1 << 30),
+        "rename": rng.choice([None, None, None, "int", "str", "tuple", "int0", "tuple0"]),
     }
 
 
@@ -170,8 +171,10 @@ def run_case(case, ctx, mode):
     from rv.ref import cfgref
 
     g, R = case["g"], case["R"]
+    if case.get("rename"):
+        g = GG.rename(g, case["rename"])
     an = GG.analyse(g)
-    cls = an["classes"]
+    cls = list(an["classes"]) + ([f"names:{case['rename']}"] if case.get("rename") else [])
     fp = codec.fingerprint(case)
     rng = random.Random(case["xseed"])
     api_build = "build"
